@@ -64,6 +64,11 @@ VARIANTS["C01"] = [
 
 # ------------------------------------------------------------------------------------------------ C08
 VARIANTS["C08"] = [
+    V("np1-flip-about-selection-extent", "fire", SG, [(
+        '            th["x"] = 70 - (th["x"])', '            th["x"] = th["x"].min() + th["x"].max() - th["x"]')], ("D8",),
+      "mirror about the centre of the saved sites, not the shank axis: wrong whenever the selection misses an outer column"),
+    V("twin-flip-constant-sum", "twin", SG, [(
+        '            th["x"] = 70 - (th["x"])', '            th["x"] = (11 + 59) - th["x"]')], (), "same axis, spelled as the sum of the outer columns"),
     V("key-after-permutation", "fire", SG, [(
         "    th[\"ind\"] = np.arange(th[\"col\"].size)\n    if sort:",
         "    if sort:"), (
